@@ -14,3 +14,4 @@ def rules(ctx):
     S.buddy_split_rules(ctx)
     S.replaced_range_rules(ctx)
     S.after_bound_rules(ctx)
+    S.survey2_rules(ctx)
